@@ -615,6 +615,9 @@ def run(ctx):
     rule_REC(ctx)
     rule_RETRY(ctx)
     rule_TRIMREF(ctx)
+    from ..effects import rule_G7
+    k7 = rule_G7(ctx, {'n_points_min'})      # the CONFIGURED minimum reaches every union
+    ctx.require(k7 >= 3, 'G7 saw only %d hand-over sites for n_points_min (floor 3)' % k7)
     prog = ctx.program
     ctx.rule('L1', 'group-complete: along every bounded path, all members of an aligned group '
              'undergo the same sequence of structural updates with the same selectors')
